@@ -693,6 +693,11 @@ def gen_run_space(rng: random.Random, keys: list[str], *, allow_source=True, max
                 elif r < 0.55 and len(vs) >= 2:
                     j = rng.randrange(1, len(vs))
                     block["context"][k] = vs[:j] + [None] + vs[j + 1:]
+                elif r < 0.75:
+                    # mapping-valued cells with INTEGER keys whose numeric and string orders differ (legal YAML). JSON cannot
+                    # hold integer keys, so the scenario stores them tagged; `decode_int_keys` turns them into real mappings
+                    a, b = rng.choice([(9, 10), (2, 10), (5, 12), (-1, 1), (99, 100)])
+                    block["context"][k] = [{"__ik__": [[a, float(i)], [b, float(i) + 0.5]]} for i in range(len(vs))]
         blocks.append(block)
     rs: dict[str, Any] = {"blocks": blocks}
     if combine != "combinatorial" or rng.random() < 0.5:
@@ -700,3 +705,14 @@ def gen_run_space(rng: random.Random, keys: list[str], *, allow_source=True, max
     if rng.random() < 0.3:
         rs["max_runs"] = rng.choice([50, 100, 1000])
     return {"run_space": rs, "files": files}
+
+
+def decode_int_keys(obj):
+    """Scenario form -> runtime form: {"__ik__": [[k, v], ...]} becomes the mapping {k: v, ...} (integer keys survive JSON this way)."""
+    if isinstance(obj, dict):
+        if set(obj) == {"__ik__"}:
+            return {k: decode_int_keys(v) for k, v in obj["__ik__"]}
+        return {k: decode_int_keys(v) for k, v in obj.items()}
+    if isinstance(obj, list):
+        return [decode_int_keys(v) for v in obj]
+    return obj
